@@ -4,6 +4,7 @@ CONSTANTS
   RegPeers <- MCRegPeers
   AllPeers <- MCAllPeers
   Cums <- MCCums
+  ClaimKeys <- HsKeys
 VIEW EdgeView
 INVARIANT EmitAll
 CHECK_DEADLOCK FALSE
